@@ -83,7 +83,7 @@ BIG_STR_POOL = ["a", "b", "cc", "dd", "eee", "f", "gg", "hhh", "ab", "ba"]
 SAME_DTYPES = ["int64", "int64", "float64", "str", "str", "int32", "float32", "int8", "uint8", "uint16", "int16", ">i4", ">f8",
                "object"]
 PAIRINGS = ["same", "same", "same", "same", "int_vs_float", "int_width", "float_width", "str_width", "neg_zero",
-            "uint_vs_int", "byte_order", "object_vs_U"]
+            "uint_vs_int", "byte_order", "object_vs_U", "mixed_columns", "mixed_columns"]
 PAIRING_CLASSES = ["same", "int_vs_float", "int_width", "float_width", "str_width", "neg_zero", "uint_vs_int", "byte_order",
                    "object_vs_U"]
 try:
@@ -265,9 +265,44 @@ def pair_class(ca, cb):
     return "other"
 
 
+MIXED_VARIANTS = {
+    # name: (dtype and pool of the single key column, [(dtype, pool) of the several key columns on the other side])
+    "int_next_to_str:int_key": (("int64", [1, 2, 3, 5]), [("int64", [1, 2, 4, 5]), ("str", ["a", "b", "cc"])]),
+    "int_next_to_str:str_key": (("str", ["a", "b", "dd"]), [("int64", [1, 2, 4, 5]), ("str", ["a", "b", "cc"])]),
+    "big_ids_next_to_float": (("int64", [2 ** 53 + 1, 2 ** 53 + 2, 2 ** 53 + 3, 5, 3]),
+                              [("int64", [2 ** 53 + 1, 2 ** 53 + 3, 2 ** 53 + 5, 7]), ("float64", [0.5, 5.0, 1.0, 3.0])]),
+    "int8_next_to_uint64": (("int64", [-1, 5, 7, 100, 2]), [("int8", [-1, 5, 100, -7]), ("uint64", [5, 7, 2 ** 63, 9])]),
+    "str_widths_side_by_side": (("str", ["a", "b", "cc", "eee"]), [("str", ["a", "cc", "dd"]), ("str6", ["b", "eee", "ffffff"])]),
+}
+
+
+def gen_mixed_columns(rng, na, nb, shape, pool_size=None):
+    """1-n / n-1 edge whose SEVERAL key columns have different dtypes side by side; membership is per column by value"""
+    variant = rng.choice(sorted(MIXED_VARIANTS))
+    (sdt, spool), many = MIXED_VARIANTS[variant]
+    many = list(many)
+    if rng.random() < 0.5:
+        many.reverse()
+
+    def col(n, dt, pool):
+        if dt in ("str", "str6"):
+            c = {"dtype": "<U6" if dt == "str6" else "<U3", "values": [rng.choice(pool) for _ in range(n)]}
+        else:
+            c = {"dtype": dt, "values": np.array([rng.choice(pool) for _ in range(n)], dtype=dt).tolist() if n else []}
+        c.update(layout="contiguous", storage="numpy", scale="mixed_columns", mixed=variant)
+        return c
+    if shape == "1-n":
+        return [col(na, sdt, spool)], [col(nb, dt, pool) for dt, pool in many]
+    return [col(na, dt, pool) for dt, pool in many], [col(nb, sdt, spool)]
+
+
 def gen_edge_columns(rng, na, nb, shape, pairing, pool_size=None):
     """Key columns for an edge between tables with na / nb elements.  Returns (cols_a, cols_b) lists of column
     descriptors (len 1 or k according to the shape)."""
+    if pairing == "mixed_columns":
+        if shape in ("1-n", "n-1"):
+            return gen_mixed_columns(rng, na, nb, shape, pool_size)
+        pairing = "same"
     if shape == "1-1":
         ka, kb = 1, 1
     elif shape == "n-n":
@@ -329,6 +364,9 @@ def gen_edge_columns(rng, na, nb, shape, pairing, pool_size=None):
 
 
 def edge_class(cols_a, cols_b):
+    mixed = [c["mixed"] for c in list(cols_a) + list(cols_b) if c.get("mixed")]
+    if mixed and len(cols_a) != len(cols_b):
+        return "mixed_columns:" + mixed[0].split(":")[0]
     if len(cols_a) == len(cols_b):
         pairs = list(zip(cols_a, cols_b))
     elif len(cols_a) == 1:
@@ -401,7 +439,7 @@ def gen_graph(rng, tier, large=False):
             tab = tables[side]
             for i, c in enumerate(cols):
                 name = "k%d_%d" % (ei, i)
-                r = rng.random()
+                r = rng.random() if not c.get("mixed") else 0.5
                 if not large and i == 0 and r < 0.15 and tab["first_keys"] and is_str(tab["cols"][tab["first_keys"][0]]) == is_str(c):
                     name = tab["first_keys"][0]              # the same column object serves two joins
                     cols[i] = tab["cols"][name]
@@ -591,6 +629,7 @@ class Built:
             nel = int(np.prod(shape))
             d.add_component(np.array(["x", "yy"] * ((nel + 1) // 2))[:nel].reshape(shape), "sv")   # only used by fault queries
         self.faults_so_far = 0
+        self.rejoined_edge = None
         self.foreign = Data(label="foreign", z=np.array([1.0, 2.0, 3.0]))
         self.dc = DataCollection(list(self.datas) + [self.foreign]) if desc["in_collection"] else None
         self.link_x = None
@@ -868,6 +907,7 @@ def rejoin(ctx, b, desc, ei, rng):
     e.update(cols_a=names["a"], cols_b=names["b"], shape=shape, caller=rng.choice(["a", "b"]),
              dtype_pair=edge_class([ta["cols"][n] for n in names["a"]], [tb["cols"][n] for n in names["b"]]))
     b.join(e)
+    b.rejoined_edge = ei
     b.desc_hash = stable_hash(desc, 16)
 
 
@@ -937,6 +977,9 @@ def run_graph(ctx, desc, rng):
         rng.shuffle(sources)
         large = desc.get("large", False)
         sels = []
+        if phase == "after_rejoin":
+            ends = [desc["edges"][edge]["a"], desc["edges"][edge]["b"]]
+            sources = ends + [x for x in sources if x not in ends]
         for s in sources[: (2 if nt <= 3 else 3)]:
             for _rep in range(2 if large else 1):
                 sel = gen_selection(rng, desc["tables"][s], large)
@@ -1090,6 +1133,11 @@ def one_query(ctx, b, desc, adj, cyclic, phase, s, sel, t, vkind, rng):
     hshape = edge_shape_from(desc, hop_edge, t)
     hclass = desc["edges"][hop_edge]["dtype_pair"]
     ctx.count("eval_mask")
+    if hclass.startswith("mixed_columns"):
+        ctx.count("eval_mixed_columns")
+        ctx.count("eval_mixed_columns:%s:%s" % (hclass.split(":")[1], hshape))
+    if phase == "after_rejoin" and len(first) == 1 and first[0][2] == b.rejoined_edge:
+        ctx.count("eval_after_rejoin_over_the_rejoined_edge:" + ("a_reads_b" if t == desc["edges"][b.rejoined_edge]["a"] else "b_reads_a"))
     if b.faults_so_far:
         ctx.count("eval_mask_after_fault")
         if len(first) >= 2:
@@ -1225,10 +1273,16 @@ def floors(counters, tier):
             ("eval_selection_defined_through_component_link", 150), ("rejoined_edges", 120),
             ("joinlink_removed_by:same_object", 12), ("joinlink_removed_by:equal_object", 12),
             ("joinlink_removed_by:flipped_equal_object", 12), ("joinlink_readded", 20),
+            ("eval_mixed_columns", 400), ("eval_after_rejoin_over_the_rejoined_edge:a_reads_b", 60),
+            ("eval_after_rejoin_over_the_rejoined_edge:b_reads_a", 60),
             ("eval_selection_op:not_gt", 120), ("eval_selection_op:sv_eq", 120), ("eval_selection_op:range_state", 120)]
     for k, n in need:
         if counters.get(k, 0) < n:
             out.append("fewer than %d %s" % (n, k))
+    for var in ("int_next_to_str", "big_ids_next_to_float", "int8_next_to_uint64", "str_widths_side_by_side"):
+        for sh in ("1-n", "n-1"):
+            if counters.get("eval_mixed_columns:%s:%s" % (var, sh), 0) < 25:
+                out.append("fewer than 25 comparisons for %s joins with key columns %s" % (sh, var))
     for vk in ALL_VIEW_KINDS:
         if counters.get("eval_view:" + vk, 0) < 100:
             out.append("fewer than 100 comparisons with view kind %s" % vk)
